@@ -321,6 +321,24 @@ func chanRecv[T any](ch <-chan T, site string) (v T, ok bool) {
 // one-shot channel).
 func RecvVia[T any](ch <-chan T, site string) <-chan T {
 	if !isActive() {
+		// a lone task about to wait: if the value is not there yet, let simulated time jump to the next timer
+		// (discrete-event rule) and look again; with no timer pending the real receive blocks as it always did
+		for IdleHook != nil {
+			select {
+			case v, ok := <-ch:
+				tmp := make(chan T, 1)
+				if ok {
+					tmp <- v
+				} else {
+					close(tmp)
+				}
+				return tmp
+			default:
+			}
+			if !IdleHook() {
+				break
+			}
+		}
 		return ch
 	}
 	v, ok := chanRecv(ch, site)
@@ -492,38 +510,54 @@ func Select(site string, hasDefault bool, cases ...SelCase) *Sel {
 				flagClear(fired)
 			}
 		}
-		if len(ready) > 0 {
-			i := ready[selNext(len(ready))]
-			k := cases[i]
-			c := chanLookup(k.addr)
-			unpark()
-			if k.send {
-				raceReleaseMerge(c.fwd())
-				c.trySend(k.v) // into the buffer, or handed to the parked receiver that made the clause ready
-				yieldEv(evReleased, k.addr)
-				return &Sel{Index: i}
+		// candidates in a seeded rotation: simulated channels that can proceed and, unless a sender counts on this
+		// select, the channels the simulator does not own (one non-blocking attempt each)
+		var cand []int
+		if flagGet(fired) {
+			cand = ready
+		} else {
+			isReady := map[int]bool{}
+			for _, i := range ready {
+				isReady[i] = true
 			}
-			x, got, _, fromSender := c.tryRecv()
-			raceAcquire(c.fwd())
-			if fromSender {
-				raceReleaseMerge(c.rev())
+			for i, k := range cases {
+				if isReady[i] || (k.addr != 0 && chanLookup(k.addr) == nil) {
+					cand = append(cand, i)
+				}
 			}
-			yieldEv(evReleased, k.addr)
-			return &Sel{Index: i, v: x, ok: got}
 		}
-		// channels the simulator does not own: one non-blocking attempt each, in source order
-		for i, k := range cases {
-			if k.addr == 0 || chanLookup(k.addr) != nil {
-				continue
-			}
-			if k.send {
-				if k.trySend() {
-					unpark()
+		if len(cand) > 0 {
+			off := selNext(len(cand))
+			for j := range cand {
+				i := cand[(j+off)%len(cand)]
+				k := cases[i]
+				c := chanLookup(k.addr)
+				if c == nil { // foreign
+					if k.send {
+						if k.trySend() {
+							unpark()
+							return &Sel{Index: i}
+						}
+					} else if v, ok, done := k.tryRecv(); done {
+						unpark()
+						return &Sel{Index: i, v: v, ok: ok}
+					}
+					continue
+				}
+				unpark()
+				if k.send {
+					raceReleaseMerge(c.fwd())
+					c.trySend(k.v) // into the buffer, or handed to the parked receiver that made the clause ready
+					yieldEv(evReleased, k.addr)
 					return &Sel{Index: i}
 				}
-			} else if v, ok, done := k.tryRecv(); done {
-				unpark()
-				return &Sel{Index: i, v: v, ok: ok}
+				x, got, _, fromSender := c.tryRecv()
+				raceAcquire(c.fwd())
+				if fromSender {
+					raceReleaseMerge(c.rev())
+				}
+				yieldEv(evReleased, k.addr)
+				return &Sel{Index: i, v: x, ok: got}
 			}
 		}
 		if hasDefault {
@@ -555,7 +589,22 @@ func Select(site string, hasDefault bool, cases ...SelCase) *Sel {
 // anyAddr: parked until any channel operation completes.
 const anyAddr = ^uint64(0)
 
+// IdleHook is called when nothing in the simulated run can proceed: it moves simulated time to the next timer and
+// fires it (set by simtime); false when no timer is pending.
+var IdleHook func() bool
+
 func realSelect(hasDefault bool, cases []SelCase) *Sel {
+	if !hasDefault && IdleHook != nil {
+		// a lone task about to wait in a select: try without blocking, let simulated time jump, try again
+		for {
+			if s := realSelect(true, cases); s.Index >= 0 {
+				return s
+			}
+			if !IdleHook() {
+				break
+			}
+		}
+	}
 	rc := make([]reflect.SelectCase, 0, len(cases)+1)
 	for _, k := range cases {
 		if k.send {
